@@ -327,7 +327,9 @@ func c35grid() (ns []uint, ps []float64) {
 
 func TestVerif_C35(t *testing.T) {
 	vrun.Main(t, "C35", func(r *vrun.Run) {
-		defer debug.SetGCPercent(debug.SetGCPercent(1000)) // allocation heavy, tiny live heap: fewer GC cycles
+		// allocation heavy with a tiny live heap: far fewer GC cycles (bounded by a soft memory limit)
+		defer debug.SetGCPercent(debug.SetGCPercent(4000))
+		defer debug.SetMemoryLimit(debug.SetMemoryLimit(4 << 30))
 		r.Rule = "for every (n,p) of the grid accepted by NewBloomFilter x {default exists script, name 'bf'; read-only exists script, name 'k{x}:c'}: " +
 			"every history of 1..depth operations over the 12-operation alphabet (depth = max_history_length, reduced per configuration as listed in bounds), " +
 			"followed by a read-only epilogue Exists(c),Exists(a),Exists(b),ExistsMulti([c,a,b]); a Count probe follows every step. " +
